@@ -473,9 +473,44 @@ pub fn scan(req: &Value) -> R<Value> {
     }))
 }
 
+/// elf: run the real loader on a byte string (validation of the C19 stubs)
+fn elf(req: &Value) -> R<Value> {
+    use falcon::loader::Loader;
+    let bytes = unhex(req["bytes"].as_str().ok_or("bytes")?)?;
+    let base = req["base"].as_u64().unwrap_or(0);
+    let mut e = match falcon::loader::Elf::new(bytes, base) {
+        Ok(e) => e,
+        Err(err) => return Ok(json!({"ok": false, "error": err.to_string()})),
+    };
+    if let Some(us) = req["user_entries"].as_array() {
+        for u in us {
+            e.add_user_function(u.as_u64().ok_or("user entry")?);
+        }
+    }
+    let mem = match e.memory() {
+        Ok(m) => json!(m.sections().iter().map(|(a, s)| json!([a, hex(s.data()), s.permissions().bits()])).collect::<Vec<_>>()),
+        Err(err) => json!({"error": err.to_string()}),
+    };
+    let fe = match e.function_entries() {
+        Ok(v) => json!(v.iter().map(|f| json!([f.address(), f.name()])).collect::<Vec<_>>()),
+        Err(err) => json!({"error": err.to_string()}),
+    };
+    Ok(json!({
+        "ok": true,
+        "arch": e.architecture().name(),
+        "endian": format!("{:?}", e.architecture().endian()),
+        "memory": mem,
+        "function_entries": fe,
+        "program_entry": e.program_entry(),
+        "symbols": e.symbols().iter().map(|s| json!([s.address(), s.name()])).collect::<Vec<_>>(),
+        "base": e.base_address(),
+    }))
+}
+
 pub fn dispatch(cmd: &str, req: &Value) -> R<Value> {
     match cmd {
         "scan" => scan(req),
+        "elf" => elf(req),
         _ => Err(format!("unknown cmd {}", cmd)),
     }
 }
